@@ -149,7 +149,8 @@ func (m *monC13) TaskEnd(s *Sim, t *Task) {
 		if !apiequality.Semantic.DeepEqual(pt.Template, v.EDS.Spec.Template) {
 			s.Violate("C13", "podtemplate", "template", "%s: PodTemplate template (%s) differs from spec.template (%s)", t.Label(), letterOfTpl(&pt.Template), letterOfTpl(&v.EDS.Spec.Template))
 		}
-		if h, ok := m.hashOf[string(v.EDS.UID)+"|"+letterOfTpl(&v.EDS.Spec.Template)]; ok && pt.Annotations[hashKey] != h {
+		// (a template that still carries a name - not yet defaulted - hashes differently from the replica set's)
+		if h, ok := m.hashOf[string(v.EDS.UID)+"|"+letterOfTpl(&v.EDS.Spec.Template)]; ok && pt.Annotations[hashKey] != h && v.EDS.Spec.Template.Name == "" {
 			s.Violate("C13", "podtemplate", "hash", "%s: PodTemplate hash %q, replica set of the same template has %q", t.Label(), pt.Annotations[hashKey], h)
 		}
 	}
